@@ -11,7 +11,7 @@ UNITS = [
             ("shape", "r is Ref || r is Nothing"),
         ],
         closures={1: Cl(
-            types=["&'a Vec<T>"], ret="(d: Data<'a, T>)",
+            expect="Data::new_ref(Pointer::idx(", types=["&'a Vec<T>"], ret="(d: Data<'a, T>)",
             requires=[("ijson", "ijson(*idx as int)"), ("len", f"array@.len() < {L62}")],
             ensures=[
                 ("shape", "d is Ref || d is Nothing"),
